@@ -122,6 +122,7 @@ def run_fragment(ctx, mode, n_exprs, max_depth):
     rows.append({'a': 1, 'c': -1, 'n': 0, 'm': 0, 'b': True, 'nb': False, 's': 'ab', 't': 'a', 'ns': ''})
     load_rows(db, E, rows)
     tr_reqs = []; tr_meta = []          # correspondence (1)
+    ck_reqs = []; ck_meta = []          # the verified checker on the real conditions
     py_reqs = []; py_meta = []          # engine reading vs Lean py
     ev_reqs = []; ev_meta = []          # (3)
     with db_session:
@@ -155,6 +156,8 @@ def run_fragment(ctx, mode, n_exprs, max_depth):
                     ctx.count('%s:decompiler-refused' % mode)       # an error, not different rows
                 elif tex is not None and not Q.closed_compound(tex):
                     tr_reqs.append({'op': 'translate', 'dialect': 'sqlite', 'schema': sch, 'expr': Q.to_json(tex)}); tr_meta.append((s, form, real, mode))
+                    if 'ok' in real:
+                        ck_reqs.append({'op': 'check', 'dialect': 'sqlite', 'schema': sch, 'expr': Q.to_json(tex), 'sql': real['ok']}); ck_meta.append((s, form, mode))
                 if q is None: continue
                 if first_q is None or form == 'string': first_q = q
                 # (2) property oracle
@@ -197,6 +200,12 @@ def run_fragment(ctx, mode, n_exprs, max_depth):
         elif mc.get('error') != real['error']:
             ctx.divergence('model and real translator disagree on the error (%s form)' % form, {'expr': s, 'form': form}, model=mc, impl=real)
         else: ctx.count('%s:error-agreed:%s' % (md, real['error']))
+    # the verified checker (C01_checker_sound): accepted => the real conditions select exactly the rows Python selects, on every database
+    for (s, form, md), out in zip(ck_meta, ctx.driver('C01', ck_reqs)):
+        if out.get('accepted'): ctx.count('%s:checker-accepted' % md)
+        elif out.get('frag'):
+            ctx.divergence('the verified checker rejects the conditions the real translator emitted for an expression of the fragment (%s form)' % form, {'expr': s, 'form': form}, model=out, impl=None)
+        else: ctx.count('%s:checker-not-applicable(outside fragment)' % md)
     # the engine's Python reading == Lean's `py` (reference of the theorem)
     for (e, params), out in zip(py_meta, ctx.driver('C01', py_reqs)):
         mine = [Q.as_k(Q.py_eval(e, r, params)) for r in rows]
@@ -311,7 +320,7 @@ def run_projections(ctx, n_exprs):
     rows = [Q.random_row(rng) for _ in range(ctx.scale(10, 30))]
     rows.append({'a': 0, 'c': 0, 'n': None, 'm': None, 'b': False, 'nb': None, 's': 'a', 't': '', 'ns': None})
     load_rows(db, E, rows)
-    tr_reqs = []; tr_meta = []; ev_reqs = []; ev_meta = []
+    tr_reqs = []; tr_meta = []; ev_reqs = []; ev_meta = []; ck_reqs = []; ck_meta = []
     from pony.orm.decompiling import decompile
     with db_session:
         for _ in range(n_exprs):
@@ -343,6 +352,7 @@ def run_projections(ctx, n_exprs):
                     ctx.count('proj:decompiler-refused'); continue
                 if tex is not None and not Q.closed_compound(tex):
                     tr_reqs.append({'op': 'translate', 'dialect': 'sqlite', 'schema': sch, 'expr': Q.to_json(tex)}); tr_meta.append((s, form, real))
+                    if 'ok' in real: ck_reqs.append({'op': 'checkproj', 'dialect': 'sqlite', 'schema': sch, 'expr': Q.to_json(tex), 'sql': real['ok']}); ck_meta.append((s, form))
                 if q is None: continue
                 try:
                     got = sorted(q[:])
@@ -378,6 +388,9 @@ def run_projections(ctx, n_exprs):
                 ctx.divergence('model projection column differs from query._translator.expr_columns (%s form)' % form, {'expr': s}, model=mp, impl=real)
         elif mp.get('error') != real['error']:
             ctx.divergence('model and real translator disagree on the error of a projection (%s form)' % form, {'expr': s}, model=mp, impl=real)
+    for (s, form), out in zip(ck_meta, ctx.driver('C01', ck_reqs)):
+        if out.get('accepted'): ctx.count('proj:checker-accepted')
+        elif out.get('frag'): ctx.divergence('the verified checker rejects the projection column the real translator emitted (%s form)' % form, {'expr': s}, model=out, impl=None)
     for (s, lite), out in zip(ev_meta, ctx.driver('C01', ev_reqs)):
         ctx.count('proj:evaluator-checked')
         if out.get('ok') != lite:
@@ -971,8 +984,82 @@ def run_tuple_and_refset_witnesses(ctx):
     db.disconnect()
 
 
+def run_subquery_nulls(ctx, rounds):
+    """IN / NOT IN over a sub-select with NULLs and aggregates with NULLs on real SQLite vs the proved model (Model/Subquery.lean):
+    the IS NOT NULL guard is emitted exactly where `needsGuard` says, rows selected = sqlIn / sqlNotIn on the (guarded) values,
+    sum / count / min / max = ponySum / sqlCount / sqlMin / sqlMax"""
+    rng = ctx.rng
+    reqs, meta = [], []
+    for rd in range(rounds):
+        db = Database()
+        class A(db.Entity):
+            v = Required(int)
+        class R(db.Entity):
+            bs = Set('B')
+        class B(db.Entity):
+            n = Optional(int)
+            r = Required(int)
+            ref = Optional(R)
+        db.bind('sqlite', ':memory:'); db.generate_mapping(create_tables=True)
+        with db_session:
+            for v in rng.sample([0, 1, 2, 3, 5], 4): A(v=v)
+            rs = [R() for _ in range(3)]
+            for _ in range(rng.choice([0, 2, 4, 6])):
+                B(n=rng.choice([None, None, 0, 1, 2, 3]), r=rng.choice([0, 1, 2, 5]), ref=rng.choice([None, rs[0], rs[1]]))
+        with db_session:
+            A_, B_ = A.select()[:], B.select()[:]
+            ns = dict(A=A, B=B, R=R, select=select, count=count, sum=psum, min=pmin, max=pmax)
+            shapes = [   # (sub-select expression, values, nullable flag of the selected monad)
+                ('b.n', [b.n for b in B_], True), ('b.r', [b.r for b in B_], False), ('b.ref.id', [b.ref.id if b.ref else None for b in B_], True),
+                ('b.n + 1', [None if b.n is None else b.n + 1 for b in B_], True)]
+            for sub, vals, flag in shapes:
+                for notin in (False, True):
+                    qsrc = 'select(a.v for a in A if a.v %s (%s for b in B))' % ('not in' if notin else 'in', sub)
+                    ctx.case(['subq', qsrc, rd], kind='subq:' + ('not-in' if notin else 'in'))
+                    q = eval(qsrc, ns); sql = q.get_sql()
+                    guard = 'IS NOT NULL' in sql
+                    if guard != (notin and flag):
+                        ctx.divergence('the IS NOT NULL guard of a sub-select is not where the model rule (needsGuard) puts it', {'query': qsrc}, model=(notin and flag), impl=sql)
+                    got = sorted(q[:])
+                    for a in A_:
+                        reqs.append({'op': 'subq', 'v': a.v, 'vals': vals, 'guard': guard}); meta.append((qsrc, a.v, vals, notin, a.v in got))
+            # aggregates with NULLs
+            vals = [b.n for b in B_]
+            real = {'sum': eval('select(sum(b.n) for b in B)', ns).first(), 'count': eval('select(count(b.n) for b in B)', ns).first(),
+                    'min': eval('select(min(b.n) for b in B)', ns).first(), 'max': eval('select(max(b.n) for b in B)', ns).first()}
+            ctx.case(['agg', vals, rd], kind='subq:aggregates')
+            present = [x for x in vals if x is not None]
+            pyagg = {'sum': sum(present), 'count': len(set(present)), 'min': min(present) if present else None, 'max': max(present) if present else None}
+            reqs.append({'op': 'subq', 'v': 0, 'vals': vals, 'guard': False}); meta.append(('agg', real, vals, pyagg, None))
+        db.disconnect()
+    if not ctx.driver.ok: return
+    for m, out in zip(meta, ctx.driver('C01', reqs)):
+        if m[0] == 'agg':
+            _, real, vals, pyagg, _ = m
+            # count(b.n) is COUNT(DISTINCT n) in Pony: compare with Python's distinct count; the model's sqlCount is the plain COUNT
+            model = {'sum': out['sum'], 'min': out['min'], 'max': out['max']}
+            for k in ('sum', 'min', 'max'):
+                if not (model[k] == real[k] == pyagg[k]):
+                    ctx.violation('aggregate over values with NULLs: SQLite, the model and Python disagree', {'aggregate': k, 'values': vals}, observed={'sqlite': real[k], 'model': model[k]}, expected=pyagg[k], key='aggregate-null:' + k)
+            if real['count'] != pyagg['count']:
+                ctx.violation('count(b.n) differs from the number of distinct present values', {'values': vals}, observed=real['count'], expected=pyagg['count'], key='aggregate-null:count')
+            ctx.count('subq:aggregates-compared')
+        else:
+            qsrc, v, vals, notin, selected = m
+            k = out['notin' if notin else 'in']
+            present = [x for x in vals if x is not None]
+            py = (v not in present) if notin else (v in present)
+            ctx.count('subq:rows-compared')
+            if (k == 'tt') != selected:
+                ctx.divergence('model sqlIn / sqlNotIn differs from real SQLite', {'query': qsrc, 'v': v, 'values': vals}, model=k, impl=selected)
+            if selected != py:
+                ctx.violation('membership in a sub-select with missing values differs from Python', {'query': qsrc, 'v': v, 'values of the sub-select': vals},
+                              observed=selected, expected=py, key='subquery-null:' + qsrc)
+
+
 def run(ctx):
     run_witnesses(ctx)
+    run_subquery_nulls(ctx, ctx.scale(4, 40))
     run_tuple_and_refset_witnesses(ctx)
     run_string_index(ctx, ctx.scale(25, 300))
     run_relational(ctx, ctx.scale(4, 40))
